@@ -2728,12 +2728,17 @@ class Trimesh(Geometry3D):
         # dump stale values before locking the cache
         self._cache.verify()
         with self._cache:
-            if "face_normals" in self._cache:
-                self.face_normals = self._cache["face_normals"] * -1.0
-            if "vertex_normals" in self._cache:
-                self.vertex_normals = self._cache["vertex_normals"] * -1.0
+            # remove the current normals from the cache
+            face_normals = self._cache.cache.pop("face_normals", None)
+            vertex_normals = self._cache.cache.pop("vertex_normals", None)
             # fliplr makes array non-contiguous so cache checks slow
             self.faces = np.ascontiguousarray(np.fliplr(self.faces))
+            # the setter checks normals against the winding of the
+            # current faces so assign them after reversing the faces
+            if face_normals is not None:
+                self.face_normals = face_normals * -1.0
+            if vertex_normals is not None:
+                self.vertex_normals = vertex_normals * -1.0
         # save our normals
         self._cache.clear(exclude=["face_normals", "vertex_normals"])
 
